@@ -244,4 +244,16 @@ theorem ptIsInf_iff {A : Pt} {g} (hA : PtRep p a b H A g) : ptIsInf A = true ↔
     simp only [ptIsInf, Bool.false_eq_true, false_iff]
     exact AffRep.ne_zero hA
 
+/-- unary minus on ANY point value, the identity included (`-INFINITY` is INFINITY: fix F12) -/
+theorem ptNeg_correct (hH : NoOrder2 H) {A : Pt} {g} (hA : PtRep p a b H A g) :
+    ∃ R, ptNeg A = .ok R ∧ PtRep p a b H R (-g) := by
+  cases A with
+  | infinity =>
+    have : g = 0 := hA
+    exact ⟨.infinity, rfl, by simp [PtRep, this]⟩
+  | jac P => exact ⟨.jac (pjNeg P), rfl, pjNeg_correct hA⟩
+  | aff Q =>
+    obtain ⟨N, e, hN, _⟩ := affNeg_correct hH hA
+    exact ⟨.aff N, by simp [ptNeg, e], hN⟩
+
 end Jac
